@@ -17,6 +17,7 @@ VERIF = os.path.dirname(os.path.dirname(os.path.abspath(__file__)))
 REPO = os.environ.get('VERIF_REPO', '/repo')
 BUILD = os.environ.get('VERIF_BUILD', os.path.join(VERIF, 'build'))
 HARNESS = os.path.join(VERIF, 'harness')
+OUTDIR = os.environ.get('VERIF_OUT', VERIF)  # evidence/ and violations/ (mutant runs redirect this)
 NCPU = int(os.environ.get('VERIF_JOBS', os.cpu_count() or 4))
 GUARD = 'OOMD_VERIF'
 
@@ -314,7 +315,7 @@ def tmpdir_for(prop):
 
 
 def save_violation(prop, case_obj, tag):
-    d = os.path.join(VERIF, 'violations')
+    d = os.path.join(OUTDIR, 'violations')
     os.makedirs(d, exist_ok=True)
     p = os.path.join(d, '%s-%s.json' % (prop, tag))
     with open(p, 'w') as f:
@@ -550,10 +551,10 @@ class InfraError(Exception):
 
 
 def write_evidence(prop, tier, seed, level, coverage, wall, violations, assumptions):
-    os.makedirs(os.path.join(VERIF, 'evidence'), exist_ok=True)
+    os.makedirs(os.path.join(OUTDIR, 'evidence'), exist_ok=True)
     ev = dict(property_id=prop, tier=tier, seed=seed, level=level, coverage=coverage,
               assumptions=assumptions, wall_s=round(wall, 2), violations=violations)
-    p = os.path.join(VERIF, 'evidence', prop + '.json')
+    p = os.path.join(OUTDIR, 'evidence', prop + '.json')
     with open(p + '.tmp', 'w') as f:
         json.dump(ev, f, indent=1)
         f.write('\n')
